@@ -1,5 +1,11 @@
-(* C08 -- property theorems only: pinned statements, each closed by `exact`. *)
-From V Require Import Base.Field C08.Model C08.Common.
+(* C08 -- property theorems only: pinned statements, each closed by `exact`.
+   Reading guide: [eval F p x] / [seval F s x] = value of a dense / sparse polynomial at x;
+   [canon F p] = p is empty or its last coefficient is non-zero; [scanon F s] = degrees
+   strictly ascending and all coefficients non-zero; [okd F r f] / [oks F r f] = the
+   model operation returned [ROk v] (no Rust panic, in particular no failed `degree()`
+   assert, no fuel exhaustion), v is canonical, and v evaluates to f x at every x. *)
+From V Require Import Base.Field C08.Model C08.Common C08.DenseProofs C08.SparseAdd C08.SparseMul
+  C08.MixedProofs C08.Division C08.Vanishing C08.DomainProofs.
 Require Import Field_theory.
 
 Section C08.
@@ -8,9 +14,172 @@ Section C08.
                      (fun a b => fmul F a (finv F b)) (finv F) eq.
   Hypothesis eqb_ok : forall a b, feqb F a b = true <-> a = b.
 
-  (* from_coefficients_vec canonicalises and never trips its assert *)
+  (* ---- canonical form, degree, constructors ---- *)
   Theorem C08_from_vec : forall p, d_from_vec F p = ROk (trunc F p) /\ canon F (trunc F p) /\
     forall x, eval F (trunc F p) x = eval F p x.
   Proof. exact (fun p => conj (d_from_vec_ok F eqb_ok p)
                  (conj (trunc_canon F eqb_ok p) (trunc_eval F Fth eqb_ok p))). Qed.
+  Theorem C08_canon_eq_iff : forall p q, canon F p -> canon F q ->
+    (p = q <-> (forall i, nth i p (f0 F) = nth i q (f0 F))).
+  Proof. exact (canon_eq_iff F). Qed.
+  Theorem C08_degree_never_panics_dense : forall p, canon F p -> exists d, d_degree F p = ROk d.
+  Proof. exact (d_degree_ok F eqb_ok). Qed.
+  Theorem C08_degree_never_panics_sparse : forall s, scanon F s -> exists d, s_degree F s = ROk d.
+  Proof. exact (s_degree_ok F eqb_ok). Qed.
+  Theorem C08_degree_ok_on_results : forall r f, okd F r f -> exists v d, r = ROk v /\ d_degree F v = ROk d.
+  Proof. exact (d_degree_result_ok F eqb_ok). Qed.
+  Theorem C08_sparse_from_vec_partial : forall s, NoDup (map fst s) ->
+    (forall t, In t s -> snd t <> f0 F) -> oks F (s_from_vec F s) (seval F s).
+  Proof. exact (s_from_vec_spec_partial F Fth eqb_ok). Qed.
+  Theorem C08_evaluate : forall p x, d_evaluate F p x = eval F p x.
+  Proof. exact (d_evaluate_spec F Fth eqb_ok). Qed.
+  Theorem C08_sparse_evaluate : forall s x, scanon F s -> s_evaluate F s x = ROk (seval F s x).
+  Proof. exact (s_evaluate_spec F Fth eqb_ok). Qed.
+
+  (* ---- dense (op) dense ---- *)
+  Theorem C08_add : forall p q, canon F p -> canon F q ->
+    okd F (d_add F p q) (fun x => fadd F (eval F p x) (eval F q x)).
+  Proof. exact (d_add_spec F Fth eqb_ok). Qed.
+  Theorem C08_add_assign : forall p q, canon F p -> canon F q ->
+    okd F (d_add_assign F p q) (fun x => fadd F (eval F p x) (eval F q x)).
+  Proof. exact (d_add_assign_spec F Fth eqb_ok). Qed.
+  Theorem C08_sub : forall p q, canon F p -> canon F q ->
+    okd F (d_sub F p q) (fun x => fsub F (eval F p x) (eval F q x)).
+  Proof. exact (d_sub_spec F Fth eqb_ok). Qed.
+  Theorem C08_sub_assign : forall p q, canon F p -> canon F q ->
+    okd F (d_sub_assign F p q) (fun x => fsub F (eval F p x) (eval F q x)).
+  Proof. exact (d_sub_assign_spec F Fth eqb_ok). Qed.
+  Theorem C08_add_assign_scaled : forall p f q, canon F p -> canon F q ->
+    okd F (d_add_assign_scaled F p f q) (fun x => fadd F (eval F p x) (fmul F f (eval F q x))).
+  Proof. exact (d_add_assign_scaled_spec F Fth eqb_ok). Qed.
+  Theorem C08_neg : forall p, canon F p ->
+    canon F (d_neg F p) /\ forall x, eval F (d_neg F p) x = fneg F (eval F p x).
+  Proof. exact (d_neg_spec F Fth). Qed.
+  Theorem C08_scale : forall p e, canon F p ->
+    canon F (d_scale F p e) /\ forall x, eval F (d_scale F p e) x = fmul F (eval F p x) e.
+  Proof. exact (d_scale_spec F Fth eqb_ok). Qed.
+  Theorem C08_naive_mul : forall p q, canon F p -> canon F q ->
+    okd F (d_naive_mul F p q) (fun x => fmul F (eval F p x) (eval F q x)).
+  Proof. exact (d_naive_mul_spec F Fth eqb_ok). Qed.
+  (* the FFT-based `Mul`, with the transform pair specified (C07) *)
+  Theorem C08_mul : forall p q, canon F p -> canon F q ->
+    okd F (d_mul F p q) (fun x => fmul F (eval F p x) (eval F q x)).
+  Proof. exact (d_mul_spec F Fth eqb_ok). Qed.
+
+  (* ---- sparse ---- *)
+  Theorem C08_sparse_add : forall a b, scanon F a -> scanon F b ->
+    oks F (s_add F a b) (fun x => fadd F (seval F a x) (seval F b x)).
+  Proof. exact (s_add_spec F Fth eqb_ok). Qed.
+  Theorem C08_sparse_sub_assign : forall a b, scanon F a -> scanon F b ->
+    oks F (s_sub_assign F a b) (fun x => fsub F (seval F a x) (seval F b x)).
+  Proof. exact (s_sub_assign_spec F Fth eqb_ok). Qed.
+  Theorem C08_sparse_add_assign_scaled : forall a f b, scanon F a -> scanon F b ->
+    oks F (s_add_assign_scaled F a f b) (fun x => fadd F (seval F a x) (fmul F f (seval F b x))).
+  Proof. exact (s_add_assign_scaled_spec F Fth eqb_ok). Qed.
+  Theorem C08_sparse_neg : forall s, scanon F s ->
+    scanon F (s_neg F s) /\ forall x, seval F (s_neg F s) x = fneg F (seval F s x).
+  Proof. exact (s_neg_spec F Fth). Qed.
+  Theorem C08_sparse_scale : forall s e, scanon F s ->
+    scanon F (s_scale F s e) /\ forall x, seval F (s_scale F s e) x = fmul F (seval F s x) e.
+  Proof. exact (s_scale_spec F Fth eqb_ok). Qed.
+  Theorem C08_sparse_mul : forall a b, scanon F a -> scanon F b ->
+    oks F (s_mul F a b) (fun x => fmul F (seval F a x) (seval F b x)).
+  Proof. exact (s_mul_spec F Fth eqb_ok). Qed.
+
+  (* ---- conversions ---- *)
+  Theorem C08_sparse_to_dense : forall s, scanon F s -> okd F (s_to_dense F s) (seval F s).
+  Proof. exact (s_to_dense_spec F Fth eqb_ok). Qed.
+  Theorem C08_dense_to_sparse : forall p, canon F p -> oks F (d_to_sparse F p) (eval F p).
+  Proof. exact (d_to_sparse_spec F Fth eqb_ok). Qed.
+
+  (* ---- dense (op) sparse ---- *)
+  Theorem C08_add_sparse : forall p s, canon F p -> scanon F s ->
+    okd F (d_add_sparse F p s) (fun x => fadd F (eval F p x) (seval F s x)).
+  Proof. exact (d_add_sparse_spec F Fth eqb_ok). Qed.
+  Theorem C08_add_assign_sparse : forall p s, canon F p -> scanon F s ->
+    okd F (d_add_assign_sparse F p s) (fun x => fadd F (eval F p x) (seval F s x)).
+  Proof. exact (d_add_assign_sparse_spec F Fth eqb_ok). Qed.
+  Theorem C08_sub_sparse : forall p s, canon F p -> scanon F s ->
+    okd F (d_sub_sparse F p s) (fun x => fsub F (eval F p x) (seval F s x)).
+  Proof. exact (d_sub_sparse_spec F Fth eqb_ok). Qed.
+  (* proved about the model WITH the truncation that /repo lacks in the 0 -= 0 corner
+     (DEFECT-1 in props/C08/NOTES.md) *)
+  Theorem C08_sub_assign_sparse : forall p s, canon F p -> scanon F s ->
+    okd F (d_sub_assign_sparse F p s) (fun x => fsub F (eval F p x) (seval F s x)).
+  Proof. exact (d_sub_assign_sparse_spec F Fth eqb_ok). Qed.
+
+  (* ---- division with remainder: a = q b + r, r = 0 or deg r < deg b ---- *)
+  Theorem C08_division : forall a b, dos_canon F a -> dos_canon F b -> dos_is_zero F b = false ->
+    exists q r db, divide F a b = ROk (q, r) /\ dos_degree F b = ROk db /\
+      canon F q /\ canon F r /\ (length r <= db)%nat /\
+      forall x, dos_eval F a x = fadd F (fmul F (eval F q x) (dos_eval F b x)) (eval F r x).
+  Proof. exact (divide_spec F Fth eqb_ok). Qed.
+
+  (* ---- vanishing polynomial X^n - c of a domain / coset (c = offset^n, any c) ---- *)
+  Theorem C08_mul_by_vanishing : forall p n c,
+    okd F (mul_by_vanishing F p n c) (fun x => fmul F (eval F p x) (fsub F (pown F x n) c)).
+  Proof. exact (mul_by_vanishing_spec F Fth eqb_ok). Qed.
+  Theorem C08_divide_by_vanishing : forall p n c, (0 < n)%nat -> canon F p ->
+    exists q r, divide_by_vanishing F p n c = ROk (q, r) /\ canon F q /\ canon F r /\
+      (length r <= n)%nat /\
+      forall x, eval F p x = fadd F (fmul F (eval F q x) (fsub F (pown F x n) c)) (eval F r x).
+  Proof. exact (divide_by_vanishing_spec F Fth eqb_ok). Qed.
+
+  (* ---- evaluation over a domain / coset, interpolation ---- *)
+  (* any input length, in particular longer than the domain *)
+  Theorem C08_eval_over_domain : forall p n h g, (0 < n)%nat -> pown F g n = f1 F ->
+    d_eval_over_domain F p n h g = map (fun i => eval F p (fmul F h (pown F g i))) (seq 0 n).
+  Proof. exact (d_eval_over_domain_spec F Fth eqb_ok). Qed.
+  Theorem C08_sparse_eval_over_domain : forall s n h g, scanon F s ->
+    s_eval_over_domain F s n h g = ROk (map (fun i => seval F s (fmul F h (pown F g i))) (seq 0 n)).
+  Proof. exact (s_eval_over_domain_spec F Fth eqb_ok). Qed.
+  Theorem C08_interpolate : forall e n h g, length e = n -> (0 < n)%nat -> pown F g n = f1 F ->
+    (forall k, (0 < k < n)%nat -> pown F g k <> f1 F) -> h <> f0 F -> of_nat F n <> f0 F ->
+    exists r, interpolate F e n h g = ROk r /\ canon F r /\ (length r <= n)%nat /\
+      forall i, (i < n)%nat -> eval F r (fmul F h (pown F g i)) = nth i e (f0 F).
+  Proof. exact (interpolate_spec F Fth eqb_ok). Qed.
+  Theorem C08_interpolate_roundtrip : forall p n h g, canon F p -> (length p <= n)%nat -> (0 < n)%nat ->
+    pown F g n = f1 F -> (forall k, (0 < k < n)%nat -> pown F g k <> f1 F) -> h <> f0 F ->
+    of_nat F n <> f0 F -> interpolate F (d_eval_over_domain F p n h g) n h g = ROk p.
+  Proof. exact (roundtrip_spec F Fth eqb_ok). Qed.
+
+  (* ---- Evaluations: pointwise operators ---- *)
+  Theorem C08_ev_add : forall a b i, length a = length b ->
+    nth i (ev_add F a b) (f0 F) = fadd F (nth i a (f0 F)) (nth i b (f0 F)).
+  Proof. exact (ev_add_nth F Fth). Qed.
+  Theorem C08_ev_sub : forall a b i, length a = length b ->
+    nth i (ev_sub F a b) (f0 F) = fsub F (nth i a (f0 F)) (nth i b (f0 F)).
+  Proof. exact (ev_sub_nth F Fth). Qed.
+  Theorem C08_ev_mul : forall a b i, length a = length b ->
+    nth i (ev_mul F a b) (f0 F) = fmul F (nth i a (f0 F)) (nth i b (f0 F)).
+  Proof. exact (ev_mul_nth F Fth). Qed.
+  Theorem C08_ev_div : forall a b i, length a = length b ->
+    nth i (ev_div F a b) (f0 F) = fmul F (nth i a (f0 F)) (finv F (nth i b (f0 F))).
+  Proof. exact (ev_div_nth F Fth). Qed.
+  Theorem C08_ev_scale : forall a e i,
+    nth i (ev_scale F a e) (f0 F) = fmul F (nth i a (f0 F)) e.
+  Proof. exact (ev_scale_nth F Fth). Qed.
 End C08.
+
+(* ---- non-vacuity: concrete canonical operands, cancelling leading terms ---- *)
+Example C08_add_example : d_add (ZpOps 7) [1; 2; 3] [1; 2; 4] = ROk [2; 4].
+Proof. vm_compute. reflexivity. Qed.
+Example C08_scaled_add_zero_example : d_add_assign_scaled (ZpOps 7) [] 0 [1; 2] = ROk [].
+Proof. vm_compute. reflexivity. Qed.
+Example C08_sub_sparse_example : d_sub_sparse (ZpOps 7) [1; 2; 3] [(2%nat, 3)] = ROk [1; 2].
+Proof. vm_compute. reflexivity. Qed.
+Example C08_sparse_mul_example :
+  s_mul (ZpOps 7) [(0%nat, 1); (1%nat, 1)] [(0%nat, 1); (1%nat, 6)] = ROk [(0%nat, 1); (2%nat, 6)].
+Proof. vm_compute. reflexivity. Qed.
+Example C08_division_example :
+  divide (ZpOps 7) (DP [1; 2; 3; 4]) (SP [(0%nat, 1); (2%nat, 3)]) = ROk ([1; 6], [0; 3]).
+Proof. vm_compute. reflexivity. Qed.
+Example C08_divide_by_vanishing_example :
+  divide_by_vanishing (ZpOps 97) [1; 2; 3; 4; 5; 6; 7] 2 5 = ROk ([9; 34; 40; 6; 7], [46; 75]).
+Proof. vm_compute. reflexivity. Qed.
+(* the hypotheses of C08_interpolate are satisfiable: 22 is a primitive 4th root of unity mod 97 *)
+Example C08_domain_example :
+  (pown (ZpOps 97) 22 4, pown (ZpOps 97) 22 1 =? 1, pown (ZpOps 97) 22 2 =? 1, pown (ZpOps 97) 22 3 =? 1,
+   interpolate (ZpOps 97) (d_eval_over_domain (ZpOps 97) [7; 0; 3] 4 5 22) 4 5 22)
+  = (1, false, false, false, ROk [7; 0; 3]).
+Proof. vm_compute. reflexivity. Qed.
